@@ -91,17 +91,19 @@ pub struct ArmOpts {
     pub allow_nodup_depth_free: bool,
     pub force_nodup: bool,
     pub knapsack_quarters: u64,
+    /// larger instances (more layers, more base states, wider diagrams): only arms whose oracle is the backward DP (no enumeration)
+    pub large: bool,
 }
 
 pub fn generate(arm: &str, seed: u64, o: ArmOpts) -> Scenario {
     let mut rng = Rng::new(seed);
     let mut trng = rng.fork(1);
-    let table = Table::generate(&mut trng, GenOpts { depth_free: o.depth_free, long_arcs: o.long_arcs, max_n: 8, max_s: 6, reconverge: o.reconverge, dom_friendly: o.force_dom == Some(true) || rng.chance(1, 3), few_dead_arcs: rng.chance(1, 3), knapsack_quarters: o.knapsack_quarters, top_merge_quarters: 1 });
+    let table = Table::generate(&mut trng, GenOpts { depth_free: o.depth_free, long_arcs: o.long_arcs, max_n: if o.large { 16 } else { 8 }, max_s: if o.large { 14 } else { 6 }, reconverge: o.reconverge, dom_friendly: o.force_dom == Some(true) || rng.chance(1, 3), few_dead_arcs: rng.chance(1, 3), knapsack_quarters: o.knapsack_quarters, top_merge_quarters: 1 });
     let dd = if o.force_pooled { Dd::Pooled } else { *rng.pick(&[Dd::Lel, Dd::Fc, Dd::Pooled]) };
     let cache = o.force_cache.unwrap_or_else(|| rng.chance(1, 2));
     let depth_free = !table.depth_in_state;
     let nodup = if depth_free && !o.allow_nodup_depth_free { false } else { rng.chance(1, 2) || o.force_nodup };
-    let wmax = *rng.pick(&[1, 1, 1, 2, 2, 2, 3, 3, 4]);
+    let wmax = if o.large { *rng.pick(&[1, 2, 3, 4, 5, 6, 8, 10]) } else { *rng.pick(&[1, 1, 1, 2, 2, 2, 3, 3, 4]) };
     let width = if o.perturb && rng.chance(1, 3) { WidthPlan::Jitter { seed: rng.next(), max: wmax.max(2) } } else { WidthPlan::Fixed(wmax) };
     let want_dom = o.force_dom.unwrap_or_else(|| rng.chance(1, 3));
     let dominance = if want_dom { Some(rng.pick(&[DomRule::Exact, DomRule::FinerKey, DomRule::Sim, DomRule::Sim]).clone()) } else { None };
@@ -128,7 +130,7 @@ pub fn generate(arm: &str, seed: u64, o: ArmOpts) -> Scenario {
     let eff_threads = threads2.unwrap_or(threads);
     let strategy = if o.parallel { draw_strategy(&mut rng, eff_threads, cache) } else { Strategy::Uniform };
     Scenario { arm: arm.to_string(), seed, table, parallel: o.parallel, dd, cache, nodup, width, dominance, dom_weaken_per_mille, cache_lossy_per_mille,
-        threads, threads2, cut, primal, strategy, sched_seed: rng.next(), max_steps: 60_000 }
+        threads, threads2, cut, primal, strategy, sched_seed: rng.next(), max_steps: if o.large { 2_000_000 } else { 60_000 } }
 }
 
 /// every complete feasible decision sequence with its value (as (variable, value) pairs sorted by variable)
@@ -202,7 +204,7 @@ where D: DecisionDiagram<State = TState> + Default, C: Cache<State = TState> + D
         None => &dom_empty,
     };
     let mut out = Outcome::default();
-    let pop_bound = if sc.parallel { 0 } else { 5_000 };
+    let pop_bound = if sc.parallel { 0 } else { 5_000.max(sc.max_steps / 12) };
     let mut f_simple; let mut f_nodup;
     let (fstats, ferrs);
     macro_rules! run_solver { ($fringe:expr) => {{
